@@ -95,16 +95,22 @@ def run(ctx):
                 dirs = [r.chance(2, 3) for _ in keys]
                 where = r.choice(["", "", " where size >= 0", " where is_file = true", " where name != 'zz'"])
                 positional = r.chance(1, 4) or any(k in POS_ONLY for k, _ in keys)
-                sel = ["path"] + [k for k, _ in keys]
+                # without the path in the select list different entries give the same row text (equal names in different
+                # directories, equal sizes): every one of them is a row of its own
+                with_path = r.chance(3, 4)
+                off = 1 if with_path else 0
+                if not with_path:
+                    ctx.count("select_list_without_path")
+                sel = (["path"] if with_path else []) + [k for k, _ in keys]
                 order = []
                 for i, (k, _) in enumerate(keys):
-                    spell = str(i + 2) if positional else k
+                    spell = str(i + 1 + off) if positional else k
                     order.append(spell + ("" if dirs[i] and r.chance(1, 2) else (" asc" if dirs[i] else " desc")))
                 # a key may be listed again later (by name or by position, any direction): the first mention decides,
                 # the repeat can never change the order
                 if r.chance(1, 4):
                     j = r.below(len(keys))
-                    spell = str(j + 2) if (r.chance(1, 2) or keys[j][0] in POS_ONLY) else keys[j][0]
+                    spell = str(j + 1 + off) if (r.chance(1, 2) or keys[j][0] in POS_ONLY) else keys[j][0]
                     order.insert(r.range(j + 1, len(order)), spell + r.choice(["", " asc", " desc", " desc"]))
                     ctx.count("repeated_key")
                 q_un = "select %s from .%s into list" % (", ".join(sel), where)
@@ -131,12 +137,14 @@ def run(ctx):
                     ctx.oracle_fail("ORDER BY output is not a permutation of the unordered output", case,
                                     detail={"ordered_rows": len(ro), "unordered_rows": len(ru)})
                     continue
-                bad = check_sorted([row[1:] for row in ro], [k for _, k in keys], dirs)
+                if len(set(map(tuple, ro))) < len(ro):
+                    ctx.count("results_with_equal_rows")
+                bad = check_sorted([row[off:] for row in ro], [k for _, k in keys], dirs)
                 if bad is not None:
                     ctx.oracle_fail("adjacent rows out of order", case, detail={"rows": ro[bad:bad + 2], "keys": keys, "asc": dirs})
                 ctx.sample({"argv": [q_or], "rows": len(ro)}, every=37)
                 # a key need not be selected: same path order when the keys are dropped from the select list
-                if r.chance(1, 4) and not positional and not any(o.split(" ")[0].isdigit() for o in order):
+                if with_path and r.chance(1, 4) and not positional and not any(o.split(" ")[0].isdigit() for o in order):
                     q2 = "select path from .%s order by %s into list" % (where, ", ".join(order))
                     r2 = common.run_cli([q2], cwd=snap.root, scratch=scratch, tz=snap.tz)
                     ctx.case((t, q2))
